@@ -11,3 +11,633 @@ Lemma facts_match :
   FactsC18.fsSuffixRE = suffix_re_src /\
   FactsC18.fsAuthBaseDir = base_dir_src.
 Proof. repeat split; reflexivity. Qed.
+
+(* ---------- bytes ---------------------------------------------------------- *)
+Lemma byte_eqb_refl b : byte_eqb b b = true.
+Proof. apply byte_eqb_eq. reflexivity. Qed.
+Lemma byte_eqb_neq a b : byte_eqb a b = false -> a <> b.
+Proof. intros H E. subst. rewrite byte_eqb_refl in H. discriminate. Qed.
+Lemma bytes_eqb_refl a : bytes_eqb a a = true.
+Proof. apply bytes_eqb_eq. reflexivity. Qed.
+
+(* ---------- split / join ---------------------------------------------------- *)
+Definition nosep (sep : byte) (f : bytes) : Prop := ~ In sep f.
+
+Lemma split_on_nonempty sep s : split_on sep s <> [].
+Proof. unfold split_on. destruct (split1 sep s). discriminate. Qed.
+
+Lemma split_on_cons sep b r :
+  split_on sep (b :: r) =
+  if byte_eqb b sep then [] :: split_on sep r
+  else match split_on sep r with f :: fs => (b :: f) :: fs | [] => [[b]] end.
+Proof.
+  unfold split_on. cbn [split1]. destruct (split1 sep r) as [f fs].
+  destruct (byte_eqb b sep); reflexivity.
+Qed.
+
+Lemma join_cons sep f g l : join_on sep (f :: g :: l) = f ++ sep :: join_on sep (g :: l).
+Proof. reflexivity. Qed.
+
+Lemma join_split sep s : join_on sep (split_on sep s) = s.
+Proof.
+  induction s as [|b r IH].
+  - reflexivity.
+  - rewrite split_on_cons. destruct (byte_eqb b sep) eqn:E.
+    + apply byte_eqb_eq in E. subst b.
+      pose proof (split_on_nonempty sep r) as Hne.
+      destruct (split_on sep r) as [|g l] eqn:Es; [congruence|].
+      rewrite join_cons. cbn [app]. rewrite IH. reflexivity.
+    + pose proof (split_on_nonempty sep r) as Hne.
+      destruct (split_on sep r) as [|g l] eqn:Es; [congruence|].
+      destruct l as [|g2 l2].
+      * cbn [join_on] in *. rewrite IH. reflexivity.
+      * rewrite join_cons in *. cbn [app]. rewrite IH. reflexivity.
+Qed.
+
+Lemma split_nosep sep s : Forall (nosep sep) (split_on sep s).
+Proof.
+  induction s as [|b r IH].
+  - constructor; [intros []|constructor].
+  - rewrite split_on_cons. destruct (byte_eqb b sep) eqn:E.
+    + constructor; [intros []|exact IH].
+    + apply byte_eqb_neq in E.
+      destruct (split_on sep r) as [|g l]; [constructor; [|constructor]|].
+      * intros [H|[]]. congruence.
+      * inversion IH; subst. constructor; [|assumption].
+        intros [H|H]; [congruence|contradiction].
+Qed.
+
+Lemma split_nosep_id sep f : nosep sep f -> split_on sep f = [f].
+Proof.
+  induction f as [|b r IH]; intro H; [reflexivity|].
+  rewrite split_on_cons.
+  destruct (byte_eqb b sep) eqn:E.
+  - apply byte_eqb_eq in E. subst. exfalso. apply H. left. reflexivity.
+  - rewrite IH; [reflexivity|]. intro Hin. apply H. right. exact Hin.
+Qed.
+
+Lemma split_app_sep sep f t :
+  nosep sep f -> split_on sep (f ++ sep :: t) = f :: split_on sep t.
+Proof.
+  induction f as [|b r IH]; intro H.
+  - cbn [app]. rewrite split_on_cons, byte_eqb_refl. reflexivity.
+  - cbn [app]. rewrite split_on_cons.
+    destruct (byte_eqb b sep) eqn:E.
+    + apply byte_eqb_eq in E. subst. exfalso. apply H. left. reflexivity.
+    + rewrite IH; [reflexivity|]. intro Hin. apply H. right. exact Hin.
+Qed.
+
+Lemma split_join sep l : l <> [] -> Forall (nosep sep) l -> split_on sep (join_on sep l) = l.
+Proof.
+  induction l as [|f l IH]; intros Hne Hall; [congruence|].
+  inversion Hall; subst.
+  destruct l as [|g l'].
+  - cbn [join_on]. apply split_nosep_id. assumption.
+  - rewrite join_cons, split_app_sep by assumption.
+    rewrite IH; [reflexivity|discriminate|assumption].
+Qed.
+
+Lemma join_app sep a b :
+  a <> [] -> b <> [] -> join_on sep (a ++ b) = join_on sep a ++ sep :: join_on sep b.
+Proof.
+  induction a as [|f a IH]; intros Ha Hb; [congruence|].
+  destruct a as [|g a'].
+  - cbn [app]. destruct b as [|h b']; [congruence|]. rewrite join_cons. reflexivity.
+  - change ((f :: g :: a') ++ b) with (f :: (g :: a') ++ b).
+    change ((g :: a') ++ b) with (g :: a' ++ b) at 1.
+    rewrite join_cons. change (g :: a' ++ b) with ((g :: a') ++ b).
+    rewrite IH by (assumption || discriminate).
+    rewrite join_cons. rewrite <- app_assoc. reflexivity.
+Qed.
+
+(* ---------- Clean on rooted paths ------------------------------------------- *)
+Definition normal (c : bytes) : Prop := normal_comp c = true.
+
+Lemma clean_step_normal st c :
+  Forall normal st -> Forall normal (clean_step true st c).
+Proof.
+  intro H. unfold clean_step.
+  destruct (is_nil c || is_dot c) eqn:E1; [exact H|].
+  destruct (is_dotdot c) eqn:E2.
+  - destruct st; [constructor|]. inversion H; assumption.
+  - constructor; [|exact H]. unfold normal, normal_comp.
+    apply orb_false_iff in E1 as [E1 E3]. rewrite E1, E3, E2. reflexivity.
+Qed.
+
+Lemma fold_normal comps st :
+  Forall normal st -> Forall normal (fold_left (clean_step true) comps st).
+Proof.
+  revert st. induction comps as [|c r IH]; intros st H; [exact H|].
+  cbn [fold_left]. apply IH. apply clean_step_normal. exact H.
+Qed.
+
+Lemma clean_step_incl r st c x :
+  In x (clean_step r st c) -> x = c \/ In x st.
+Proof.
+  unfold clean_step.
+  destruct (is_nil c || is_dot c); [auto|].
+  destruct (is_dotdot c).
+  - destruct st as [|top st'].
+    + destruct r; [intros []|]. intros [H|[]]. auto.
+    + destruct r; [intro H; right; right; exact H|].
+      destruct (is_dotdot top).
+      * intros [H|H]; auto.
+      * intro H; right; right; exact H.
+  - intros [H|H]; auto.
+Qed.
+
+Lemma fold_incl r comps st x :
+  In x (fold_left (clean_step r) comps st) -> In x comps \/ In x st.
+Proof.
+  revert st. induction comps as [|c l IH]; intros st H; [right; exact H|].
+  cbn [fold_left] in H. apply IH in H as [H|H].
+  - left. right. exact H.
+  - apply clean_step_incl in H as [H|H]; [left; left; auto|right; exact H].
+Qed.
+
+Lemma clean_step_push st c : normal c -> clean_step true st c = c :: st.
+Proof.
+  unfold normal, normal_comp, clean_step. intro H.
+  apply andb_true_iff in H as [H H3]. apply andb_true_iff in H as [H1 H2].
+  apply negb_true_iff in H1, H2, H3. rewrite H1, H2, H3. reflexivity.
+Qed.
+
+Lemma fold_all_normal comps st :
+  Forall normal comps -> fold_left (clean_step true) comps st = rev comps ++ st.
+Proof.
+  revert st. induction comps as [|c r IH]; intros st H; [reflexivity|].
+  inversion H; subst. cbn [fold_left rev]. rewrite clean_step_push by assumption.
+  rewrite IH by assumption. rewrite <- app_assoc. reflexivity.
+Qed.
+
+Lemma is_sep_slash : is_sep slash = true.
+Proof. reflexivity. Qed.
+
+(* a rooted path that Clean leaves alone is "/" or "/" ++ normal elements joined by "/" *)
+Lemma clean_fix_rooted rest :
+  clean (slash :: rest) = slash :: rest ->
+  rest = [] \/ Forall normal (split_on slash rest).
+Proof.
+  unfold clean. rewrite is_sep_slash. intro H. injection H as H.
+  set (st := rev (fold_left (clean_step true) (split_on slash rest) [])) in *.
+  assert (Hn : Forall normal st).
+  { unfold st. apply Forall_rev. apply fold_normal. constructor. }
+  assert (Hs : Forall (nosep slash) st).
+  { apply Forall_forall. intros x Hx. unfold st in Hx. apply in_rev in Hx.
+    apply fold_incl in Hx as [Hx|[]].
+    pose proof (split_nosep slash rest) as Hall. rewrite Forall_forall in Hall. auto. }
+  destruct st as [|f l] eqn:Est.
+  - left. cbn in H. congruence.
+  - right. rewrite <- H. rewrite split_join; [exact Hn|discriminate|exact Hs].
+Qed.
+
+Lemma clean_rooted_normal comps :
+  Forall normal comps -> Forall (nosep slash) comps -> comps <> [] ->
+  clean (slash :: join_on slash comps) = slash :: join_on slash comps.
+Proof.
+  intros Hn Hs Hne. unfold clean. rewrite is_sep_slash.
+  rewrite split_join by assumption. rewrite fold_all_normal by assumption.
+  rewrite app_nil_r, rev_involutive. reflexivity.
+Qed.
+
+(* ---------- Dir and Base of a canonical rooted path ------------------------- *)
+Lemma split_on_slash_cons rest : split_on slash (slash :: rest) = [] :: split_on slash rest.
+Proof. rewrite split_on_cons, byte_eqb_refl. reflexivity. Qed.
+
+Lemma nosep_nil sep : nosep sep [].
+Proof. intros []. Qed.
+
+Lemma dir_rooted rc x :
+  Forall normal rc -> Forall (nosep slash) rc -> nosep slash x ->
+  dir (slash :: join_on slash (rc ++ [x])) =
+  match rc with [] => [slash] | _ => slash :: join_on slash rc end.
+Proof.
+  intros Hn Hs Hx. unfold dir.
+  rewrite split_on_slash_cons.
+  rewrite split_join; [|destruct rc; discriminate|apply Forall_app; split; [assumption|constructor; [assumption|constructor]]].
+  change ([] :: rc ++ [x]) with (([] :: rc) ++ [x]). rewrite removelast_last.
+  destruct rc as [|g l].
+  - reflexivity.
+  - rewrite join_cons. cbn [app].
+    set (rc := g :: l) in *.
+    assert (Hj : join_on slash rc ++ [slash] = join_on slash (rc ++ [[]])).
+    { rewrite join_app by (unfold rc; discriminate). reflexivity. }
+    rewrite Hj. unfold clean. rewrite is_sep_slash.
+    rewrite split_join; [|unfold rc; discriminate|apply Forall_app; split; [assumption|constructor; [apply nosep_nil|constructor]]].
+    rewrite fold_left_app. rewrite (fold_all_normal rc) by assumption.
+    cbn [fold_left clean_step is_nil orb]. rewrite app_nil_r, rev_involutive. reflexivity.
+Qed.
+
+Lemma split1_nosep x : nosep slash x -> split1 slash x = (x, []).
+Proof.
+  intro H. pose proof (split_nosep_id slash x H) as E. unfold split_on in E.
+  destruct (split1 slash x) as [f fs]. injection E as E1 E2. subst. reflexivity.
+Qed.
+
+Lemma last_of_split pre x f fs :
+  nosep slash x -> split1 slash (pre ++ slash :: x) = (f, fs) ->
+  fs <> [] /\ forall f', last_of f' fs = x.
+Proof.
+  intro Hx. revert f fs. induction pre as [|b pre IH]; intros f fs H.
+  - cbn [app split1] in H. rewrite (split1_nosep x Hx), byte_eqb_refl in H.
+    injection H as H1 H2. subst. split; [discriminate|reflexivity].
+  - cbn [app split1] in H.
+    destruct (split1 slash (pre ++ slash :: x)) as [f0 fs0] eqn:E.
+    destruct (IH f0 fs0 eq_refl) as [Hne Hl].
+    destruct (byte_eqb b slash); injection H as H1 H2; subst.
+    + split; [discriminate|]. intro f'. cbn [last_of]. apply Hl.
+    + split; assumption.
+Qed.
+
+Lemma drop_seps_notsep b t : is_sep b = false -> drop_seps (b :: t) = b :: t.
+Proof. intro H. cbn [drop_seps]. rewrite H. reflexivity. Qed.
+
+Lemma base_nonempty p :
+  p <> [] ->
+  base p = match rev (drop_seps (rev p)) with
+           | [] => [slash]
+           | q => let '(f, fs) := split1 slash q in last_of f fs
+           end.
+Proof. destruct p; [congruence|reflexivity]. Qed.
+
+Lemma base_join pre x :
+  x <> [] -> nosep slash x -> base (pre ++ slash :: x) = x.
+Proof.
+  intros Hne Hx.
+  destruct (exists_last Hne) as [x' [y Ex]]. subst x.
+  assert (Hy : is_sep y = false).
+  { unfold is_sep. destruct (byte_eqb y slash) eqn:E; [|reflexivity].
+    apply byte_eqb_eq in E. subst. exfalso. apply Hx. apply in_or_app. right. left. reflexivity. }
+  rewrite base_nonempty by (destruct pre; discriminate).
+  assert (Hr : rev (pre ++ slash :: x' ++ [y]) = y :: rev x' ++ slash :: rev pre).
+  { rewrite rev_app_distr. cbn [rev]. rewrite rev_app_distr. cbn [rev app].
+    rewrite <- app_assoc. reflexivity. }
+  rewrite Hr, drop_seps_notsep by exact Hy. rewrite <- Hr, rev_involutive.
+  remember (pre ++ slash :: x' ++ [y]) as p eqn:Ep.
+  destruct p as [|b0 t0]; [destruct pre; discriminate|].
+  cbv iota beta.
+  destruct (split1 slash (b0 :: t0)) as [f fs] eqn:Es.
+  rewrite Ep in Es. apply last_of_split in Es; [|exact Hx]. destruct Es as [_ Hl]. apply Hl.
+Qed.
+
+(* ---------- the path part of validate --------------------------------------- *)
+Lemma fs_base_val : fs_base = [slash; x74; x6d; x70].
+Proof. reflexivity. Qed.
+
+Lemma validate_path p remote pr leaf :
+  validate p remote pr = VOk leaf ->
+  p = fs_base ++ slash :: leaf /\ leaf = base p /\ unsafe_leaf leaf = false.
+Proof.
+  unfold validate.
+  destruct (is_nil p) eqn:Hnil; [discriminate|].
+  destruct (is_abs p) eqn:Habs; [|discriminate]. cbn [negb].
+  destruct (bytes_eqb (clean p) p) eqn:Hclean; [|discriminate]. cbn [negb].
+  destruct (bytes_eqb (dir p) fs_base) eqn:Hdir; [|discriminate]. cbn [negb].
+  destruct (unsafe_leaf (base p)) eqn:Hunsafe; [discriminate|].
+  intro Hres.
+  assert (Hleaf : leaf = base p).
+  { destruct (fs_addr_leaf (base p) remote) as [[ip port]|].
+    - destruct (verify_endpoint ip port pr); [congruence|discriminate].
+    - destruct (if remote then remote_leaf_ok (base p) else local_leaf_ok (base p)); [congruence|discriminate]. }
+  clear Hres.
+  destruct p as [|b rest]; [discriminate|].
+  cbn [is_abs] in Habs. unfold is_sep in Habs. apply byte_eqb_eq in Habs. subst b.
+  apply bytes_eqb_eq in Hclean. apply bytes_eqb_eq in Hdir.
+  destruct (clean_fix_rooted rest Hclean) as [Hr|Hn].
+  { subst rest. vm_compute in Hdir. discriminate. }
+  pose proof (split_nosep slash rest) as Hs.
+  pose proof (join_split slash rest) as Hj.
+  destruct (exists_last (split_on_nonempty slash rest)) as [rc [x Ec]].
+  rewrite Ec in *. apply Forall_app in Hn as [Hn Hnx]. apply Forall_app in Hs as [Hs Hsx].
+  pose proof (Forall_inv Hnx) as Hnx'. pose proof (Forall_inv Hsx) as Hsx'.
+  rewrite <- Hj in Hdir. rewrite dir_rooted in Hdir by assumption.
+  destruct rc as [|g l]; [rewrite fs_base_val in Hdir; discriminate|].
+  rewrite fs_base_val in Hdir.
+  assert (Hd2 : join_on slash (g :: l) = [x74; x6d; x70]) by (injection Hdir as Hd; exact Hd).
+  clear Hdir. rename Hd2 into Hdir.
+  assert (Hrc : g :: l = [[x74; x6d; x70]]).
+  { rewrite <- (split_join slash (g :: l)) by (discriminate || assumption). rewrite Hdir. reflexivity. }
+  rewrite Hrc in Hj. cbn [app] in Hj. rewrite join_cons in Hj. cbn [join_on app] in Hj.
+  assert (Hx0 : x <> []).
+  { unfold normal, normal_comp in Hnx'. destruct x; [discriminate|discriminate]. }
+  assert (Hp : slash :: rest = fs_base ++ slash :: x).
+  { rewrite <- Hj. reflexivity. }
+  assert (Hb : base (slash :: rest) = x).
+  { rewrite Hp. apply base_join; assumption. }
+  split; [|split].
+  - rewrite Hleaf, Hb. exact Hp.
+  - exact Hleaf.
+  - rewrite Hleaf. exact Hunsafe.
+Qed.
+
+(* ---------- the recognisers denote the regular expressions ------------------ *)
+Lemma strip_prefix_spec pre s r : strip_prefix pre s = Some r -> s = pre ++ r.
+Proof.
+  revert s. induction pre as [|a pre IH]; intros s H.
+  - cbn in H. injection H as H. subst. reflexivity.
+  - destruct s as [|b s']; [discriminate|]. cbn [strip_prefix] in H.
+    destruct (byte_eqb a b) eqn:E; [|discriminate].
+    apply byte_eqb_eq in E. subst. cbn [app]. f_equal. apply IH. exact H.
+Qed.
+
+Lemma strip_prefix_app pre r : strip_prefix pre (pre ++ r) = Some r.
+Proof.
+  induction pre as [|a pre IH]; [reflexivity|].
+  cbn [app strip_prefix]. rewrite byte_eqb_refl. exact IH.
+Qed.
+
+Lemma forallb_Forall {A} (f : A -> bool) l : forallb f l = true <-> Forall (fun x => f x = true) l.
+Proof. rewrite forallb_forall, Forall_forall. reflexivity. Qed.
+
+Lemma suffix_ok_spec r : suffix_ok r = true <-> alnum_suffix r.
+Proof.
+  unfold suffix_ok, alnum_suffix. rewrite !andb_true_iff, forallb_Forall, Nat.leb_le.
+  destruct r as [|b r]; cbn [is_nil negb length]; split; intros H.
+  - destruct H as [[H _] _]. discriminate.
+  - destruct H as [[H _] _]. lia.
+  - destruct H as [[_ H] H2]. repeat split; [lia|exact H|exact H2].
+  - destruct H as [[_ H] H2]. repeat split; assumption.
+Qed.
+
+Lemma local_ok_spec leaf : local_leaf_ok leaf = true <-> local_shape leaf.
+Proof.
+  unfold local_leaf_ok, local_shape. split.
+  - destruct (strip_prefix pfx_local leaf) as [r|] eqn:E; [|discriminate].
+    intro H. exists r. split; [apply strip_prefix_spec; exact E|apply suffix_ok_spec; exact H].
+  - intros [r [E H]]. subst. rewrite strip_prefix_app. apply suffix_ok_spec. exact H.
+Qed.
+
+Lemma is_nil_false {A} (l : list A) : is_nil l = false <-> l <> [].
+Proof. destruct l; cbn; split; intro H; congruence. Qed.
+
+Lemma remote_ok_sound leaf : remote_leaf_ok leaf = true -> remote_shape leaf.
+Proof.
+  unfold remote_leaf_ok, remote_shape.
+  destruct (strip_prefix pfx_remote leaf) as [s|] eqn:E; [|discriminate].
+  apply strip_prefix_spec in E.
+  destruct (rev (split_on underscore s)) as [|r [|d hrev]] eqn:Er; try discriminate.
+  intro H.
+  apply andb_true_iff in H as [H HF]. apply andb_true_iff in H as [H HE].
+  apply andb_true_iff in H as [H HD]. apply andb_true_iff in H as [H HC].
+  apply andb_true_iff in H as [HA HB].
+  apply negb_true_iff in HB, HD, HE. apply is_nil_false in HB, HD, HE.
+  apply forallb_Forall in HC, HF. apply suffix_ok_spec in HA.
+  exists (join_on underscore (rev hrev)), d, r.
+  split; [|repeat split; try assumption; apply HA].
+  rewrite E. f_equal.
+  rewrite <- (join_split underscore s) at 1.
+  rewrite <- (rev_involutive (split_on underscore s)), Er. cbn [rev].
+  rewrite <- app_assoc. cbn [app].
+  rewrite join_app; [|intro Hr; apply HD; apply (f_equal (@rev bytes)) in Hr; rewrite rev_involutive in Hr; exact Hr|discriminate].
+  reflexivity.
+Qed.
+
+(* completeness: every name of the remote shape is recognised *)
+Lemma digit_not_us b : is_digit b = true -> b <> underscore.
+Proof. intros H E. subst. discriminate. Qed.
+Lemma alnum_not_us b : is_alnum b = true -> b <> underscore.
+Proof. intros H E. subst. discriminate. Qed.
+Lemma Forall_nosep (P : byte -> bool) l :
+  (forall b, P b = true -> b <> underscore) -> Forall (fun b => P b = true) l -> nosep underscore l.
+Proof.
+  intros HP H Hin. rewrite Forall_forall in H. apply (HP underscore); auto.
+Qed.
+
+Lemma remote_ok_complete leaf : remote_shape leaf -> remote_leaf_ok leaf = true.
+Proof.
+  intros [h [d [r [E [Hh [Hhc [Hd [Hdc Hr]]]]]]]]. subst leaf.
+  unfold remote_leaf_ok. rewrite strip_prefix_app.
+  assert (Hdn : nosep underscore d) by (eapply Forall_nosep; [apply digit_not_us|exact Hdc]).
+  assert (Hrn : nosep underscore r) by (eapply Forall_nosep; [apply alnum_not_us|apply Hr]).
+  (* h = join of its own fields *)
+  pose proof (join_split underscore h) as Hj.
+  pose proof (split_nosep underscore h) as Hs.
+  pose proof (split_on_nonempty underscore h) as Hne.
+  set (hf := split_on underscore h) in *.
+  assert (Hsplit : split_on underscore (h ++ underscore :: d ++ underscore :: r) = hf ++ [d; r]).
+  { rewrite <- Hj.
+    replace (join_on underscore hf ++ underscore :: d ++ underscore :: r)
+      with (join_on underscore (hf ++ [d; r])).
+    - apply split_join; [destruct hf; discriminate|].
+      apply Forall_app. split; [exact Hs|]. repeat constructor; assumption.
+    - rewrite join_app by (assumption || discriminate). reflexivity. }
+  rewrite Hsplit, rev_app_distr. cbn [rev app].
+  rewrite rev_involutive. fold hf. rewrite Hj.
+  apply suffix_ok_spec in Hr. rewrite Hr.
+  apply forallb_Forall in Hdc, Hhc. rewrite Hdc, Hhc.
+  destruct d; [congruence|]. destruct h; [congruence|].
+  destruct (rev hf) eqn:Erev.
+  { exfalso. apply Hne. apply (f_equal (@rev bytes)) in Erev. rewrite rev_involutive in Erev. exact Erev. }
+  reflexivity.
+Qed.
+
+Lemma remote_ok_spec leaf : remote_leaf_ok leaf = true <-> remote_shape leaf.
+Proof. split; [apply remote_ok_sound|apply remote_ok_complete]. Qed.
+
+Lemma addr_leaf_spec leaf remote ip port :
+  fs_addr_leaf leaf remote = Some (ip, port) -> addr_shape remote leaf ip port.
+Proof.
+  unfold fs_addr_leaf, addr_shape.
+  destruct (strip_prefix (if remote then pfx_remote else pfx_local) leaf) as [rest|] eqn:E; [|discriminate].
+  apply strip_prefix_spec in E.
+  destruct (negb remote && has_prefix remote_word rest); [discriminate|].
+  destruct (split_on underscore rest) as [|f1 [|f2 [|f3 [|f4 l]]]] eqn:Es; try discriminate.
+  destruct (parse_ip f1) eqn:Eip; [|discriminate].
+  destruct (suffix_ok f3 && port_ok f2) eqn:Eok; [|discriminate].
+  intro H. injection H as H1 H2. subst f1 f2.
+  apply andb_true_iff in Eok as [Hsfx Hport].
+  unfold port_ok in Hport. apply andb_true_iff in Hport as [Hport HP3].
+  apply andb_true_iff in Hport as [HP1 HP2].
+  apply Nat.leb_le in HP1, HP2. apply forallb_Forall in HP3. apply suffix_ok_spec in Hsfx.
+  exists f3. split; [|split; [|split; [|split]]].
+  - rewrite E. f_equal. rewrite <- (join_split underscore rest), Es. reflexivity.
+  - rewrite Eip. discriminate.
+  - split; assumption.
+  - exact HP3.
+  - exact Hsfx.
+Qed.
+
+Lemma ip_eqb_eq a b : ip_eqb a b = true -> a = b.
+Proof.
+  revert b. induction a as [|x a IH]; intros [|y b] H; try discriminate; [reflexivity|].
+  cbn [ip_eqb] in H. apply andb_true_iff in H as [H1 H2].
+  apply N.eqb_eq in H1. apply IH in H2. congruence.
+Qed.
+
+Lemma verify_endpoint_spec ip port pr :
+  verify_endpoint ip port pr = true -> names_endpoint ip port pr.
+Proof.
+  unfold verify_endpoint, names_endpoint.
+  destruct pr as [| |h pp]; try discriminate.
+  intro H. apply andb_true_iff in H as [H1 H2]. apply bytes_eqb_eq in H1. subst pp.
+  destruct (parse_ip ip) as [a|] eqn:Ea; [|discriminate].
+  destruct (parse_ip h) as [b|] eqn:Eb; [|discriminate].
+  apply ip_eqb_eq in H2. subst. exists h, b. repeat split; assumption.
+Qed.
+
+(* ---------- C18_validate_shape ----------------------------------------------- *)
+Definition safe_leaf (leaf : bytes) : Prop :=
+  (forall b, In b leaf -> b <> slash /\ b <> x00) /\ leaf <> [] /\ leaf <> [dot] /\ leaf <> [dot; dot].
+
+Lemma unsafe_leaf_false leaf :
+  unsafe_leaf leaf = false -> (forall b, In b leaf -> b <> slash /\ b <> x00) /\ leaf <> [dot] /\ leaf <> [dot; dot].
+Proof.
+  unfold unsafe_leaf. intro H.
+  apply orb_false_iff in H as [H H3]. apply orb_false_iff in H as [H1 H2].
+  repeat split.
+  - intro E. subst b. assert (Hex : existsb (fun b => byte_eqb b slash || byte_eqb b x00) leaf = true).
+    { apply existsb_exists. exists slash. split; [assumption|reflexivity]. }
+    congruence.
+  - intro E. subst b. assert (Hex : existsb (fun b => byte_eqb b slash || byte_eqb b x00) leaf = true).
+    { apply existsb_exists. exists x00. split; [assumption|reflexivity]. }
+    congruence.
+  - intro E. subst. discriminate.
+  - intro E. subst. discriminate.
+Qed.
+
+Lemma validate_shape p remote pr leaf :
+  validate p remote pr = VOk leaf ->
+  p = fs_base ++ slash :: leaf /\
+  (forall b, In b leaf -> b <> slash /\ b <> x00) /\
+  leaf <> [] /\ leaf <> [dot] /\ leaf <> [dot; dot] /\
+  ((exists ip port, addr_shape remote leaf ip port /\ names_endpoint ip port pr) \/
+   (remote = false /\ local_shape leaf) \/
+   (remote = true /\ remote_shape leaf)).
+Proof.
+  intro H. destruct (validate_path _ _ _ _ H) as [Hp [Hb Hu]].
+  apply unsafe_leaf_false in Hu as [Hu1 [Hu2 Hu3]].
+  split; [exact Hp|]. split; [exact Hu1|].
+  assert (Hshape :
+    (exists ip port, addr_shape remote leaf ip port /\ names_endpoint ip port pr) \/
+    (remote = false /\ local_shape leaf) \/ (remote = true /\ remote_shape leaf)).
+  { unfold validate in H.
+    destruct (is_nil p); [discriminate|].
+    destruct (negb (is_abs p)); [discriminate|].
+    destruct (negb (bytes_eqb (clean p) p)); [discriminate|].
+    destruct (negb (bytes_eqb (dir p) fs_base)); [discriminate|].
+    destruct (unsafe_leaf (base p)); [discriminate|].
+    rewrite <- Hb in H.
+    destruct (fs_addr_leaf leaf remote) as [[ip port]|] eqn:Ea.
+    - destruct (verify_endpoint ip port pr) eqn:Ev; [|discriminate].
+      left. exists ip, port. split; [apply addr_leaf_spec; exact Ea|apply verify_endpoint_spec; exact Ev].
+    - right. destruct remote.
+      + destruct (remote_leaf_ok leaf) eqn:Er; [|discriminate]. right. split; [reflexivity|apply remote_ok_sound; exact Er].
+      + destruct (local_leaf_ok leaf) eqn:El; [|discriminate]. left. split; [reflexivity|apply local_ok_spec; exact El]. }
+  split; [|split; [exact Hu2|split; [exact Hu3|exact Hshape]]].
+  (* a leaf of any of the shapes starts with "FS_", so it is not empty *)
+  intro Enil.
+  destruct Hshape as [[ip [port [[sfx [E0 _]] _]]]|[[_ [r [E0 _]]]|[_ [h [d [r [E0 _]]]]]]];
+    rewrite Enil in E0; destruct remote; vm_compute in E0; discriminate.
+Qed.
+
+(* ---------- the client exchange ----------------------------------------------- *)
+Lemma mkdir_part_cases remote pr env p :
+  mkdir_part remote pr env p = ([], (-1)%Z, []) \/
+  exists leaf, validate p remote pr = VOk leaf /\ open_root_ok env = true /\
+    ((mkdir_ok env leaf = false /\ mkdir_part remote pr env p = ([EMkdir (under_base leaf) false], (-1)%Z, [])) \/
+     (mkdir_ok env leaf = true /\
+      mkdir_part remote pr env p = ([EMkdir (under_base leaf) true], 0%Z, [ERmdir (under_base leaf)]))).
+Proof.
+  unfold mkdir_part.
+  destruct (is_nil p); [left; reflexivity|].
+  destruct (validate p remote pr) as [leaf|cls]; [|left; reflexivity].
+  destruct (open_root_ok env); [|left; reflexivity].
+  right. exists leaf. split; [reflexivity|]. split; [reflexivity|].
+  destruct (mkdir_ok env leaf); [right|left]; split; reflexivity.
+Qed.
+
+Lemma exchange_effects remote pr env sc :
+  let x := client_exchange remote pr env sc in
+  x_eff x = [] \/
+  exists p leaf, sc_path sc = IoOk p /\ sc_eom1 sc = EomOk /\ validate p remote pr = VOk leaf /\
+    open_root_ok env = true /\
+    ((mkdir_ok env leaf = false /\ x_eff x = [EMkdir (under_base leaf) false] /\ x_reply x = Some (-1)%Z) \/
+     (mkdir_ok env leaf = true /\ x_eff x = [EMkdir (under_base leaf) true; ERmdir (under_base leaf)] /\ x_reply x = Some 0%Z)).
+Proof.
+  cbv zeta. unfold client_exchange.
+  destruct (sc_path sc) as [p|] eqn:Ep; [|left; reflexivity].
+  destruct (sc_eom1 sc) eqn:Ee; try (left; reflexivity).
+  destruct (mkdir_part_cases remote pr env p) as [H|[leaf [Hv [Ho [[Hm H]|[Hm H]]]]]]; rewrite H.
+  - left. reflexivity.
+  - right. exists p, leaf. repeat split; try assumption. left. repeat split; assumption.
+  - right. exists p, leaf. repeat split; try assumption. right. repeat split; assumption.
+Qed.
+
+(* no acceptable path, no effect, and the reply (if one is produced) is -1 *)
+Lemma exchange_rejected remote pr env sc :
+  (forall p leaf, sc_path sc = IoOk p -> validate p remote pr <> VOk leaf) ->
+  let x := client_exchange remote pr env sc in
+  x_eff x = [] /\ (x_reply x = None \/ x_reply x = Some (-1)%Z) /\
+  (forall p, sc_path sc = IoOk p -> sc_eom1 sc = EomOk -> x_reply x = Some (-1)%Z).
+Proof.
+  intro Hrej. cbv zeta. unfold client_exchange.
+  destruct (sc_path sc) as [p|] eqn:Ep.
+  2:{ repeat split; auto. intros; discriminate. }
+  destruct (sc_eom1 sc) eqn:Ee; try (repeat split; auto; intros; discriminate).
+  destruct (mkdir_part_cases remote pr env p) as [H|[leaf [Hv _]]].
+  - rewrite H. repeat split; auto.
+  - exfalso. apply (Hrej p leaf); [reflexivity|exact Hv].
+Qed.
+
+Lemma exchange_cleanup remote pr env sc q :
+  In (EMkdir q true) (x_eff (client_exchange remote pr env sc)) ->
+  exists before, x_eff (client_exchange remote pr env sc) = before ++ [ERmdir q].
+Proof.
+  intro Hin. destruct (exchange_effects remote pr env sc) as [H|[p [leaf [_ [_ [_ [_ [[_ [H _]]|[_ [H _]]]]]]]]]];
+    cbv zeta in H; rewrite H in *.
+  - destruct Hin.
+  - destruct Hin as [Hin|[]]. discriminate.
+  - destruct Hin as [Hin|[Hin|[]]]; [|discriminate]. injection Hin as Hq. subst q.
+    exists [EMkdir (under_base leaf) true]. reflexivity.
+Qed.
+
+Lemma exchange_nil_return remote pr env sc :
+  x_ret (client_exchange remote pr env sc) = RetNil ->
+  sc_res sc = IoOk 0%Z /\ sc_eom2 sc = EomOk /\ sc_put sc = true /\ sc_fin sc = true.
+Proof.
+  unfold client_exchange.
+  destruct (sc_path sc) as [p|]; [|discriminate].
+  destruct (sc_eom1 sc); try discriminate.
+  destruct (mkdir_part remote pr env p) as [[e1 code] cl]. cbn [x_ret].
+  unfold exchange_tail.
+  destruct (sc_put sc); cbn [negb]; [|discriminate].
+  destruct (sc_fin sc); cbn [negb]; [|discriminate].
+  destruct (sc_res sc) as [v|]; [|discriminate].
+  destruct (sc_eom2 sc); try discriminate.
+  destruct (v =? 0)%Z eqn:Ev; [|discriminate].
+  apply Z.eqb_eq in Ev. subst. auto.
+Qed.
+
+(* ---------- the server's verification ------------------------------------------ *)
+Lemma server_accepts code st lookup who :
+  server_verdict code st lookup = (0%Z, who) ->
+  code = 0%Z /\
+  exists s u, st = Some s /\ st_dir s = true /\ st_symlink s = false /\
+    st_perm s = owner_only_perm /\ (st_nlink s = 1%N \/ st_nlink s = 2%N) /\
+    lookup (st_uid s) = Some u /\ who = Some u.
+Proof.
+  unfold server_verdict.
+  destruct (code =? 0)%Z eqn:Ec; [|discriminate]. apply Z.eqb_eq in Ec.
+  destruct st as [s|]; [|discriminate].
+  destruct (st_dir s && negb (st_symlink s) && (st_perm s =? owner_only_perm)%N
+            && ((st_nlink s =? 1)%N || (st_nlink s =? 2)%N)) eqn:E; [|discriminate].
+  destruct (lookup (st_uid s)) as [u|] eqn:El; [|discriminate].
+  intro H. injection H as H. subst who.
+  apply andb_true_iff in E as [E E4]. apply andb_true_iff in E as [E E3].
+  apply andb_true_iff in E as [E1 E2].
+  apply negb_true_iff in E2. apply N.eqb_eq in E3. apply orb_true_iff in E4.
+  split; [exact Ec|]. exists s, u. repeat split; try assumption.
+  destruct E4 as [H|H]; apply N.eqb_eq in H; auto.
+Qed.
+
+Lemma server_identity_only_on_accept code st lookup res u :
+  server_verdict code st lookup = (res, Some u) -> res = 0%Z.
+Proof.
+  unfold server_verdict.
+  destruct (code =? 0)%Z; [|discriminate].
+  destruct st as [s|]; [|discriminate].
+  destruct (st_dir s && negb (st_symlink s) && (st_perm s =? owner_only_perm)%N
+            && ((st_nlink s =? 1)%N || (st_nlink s =? 2)%N)); [|discriminate].
+  destruct (lookup (st_uid s)); [|discriminate].
+  intro H. injection H as H _. auto.
+Qed.
